@@ -21,6 +21,7 @@ EXEMPT_CALLS = {
     ("svd_rand_truncated", "array_split"): "orthogonalisation stage of the randomized SVD is an exact QR-like split",
     ("*", "contract_tags_"): "exact contraction of tagged groups",
     ("*", "contract_tags"): "exact contraction of tagged groups",
+    ("tensor_network_ag_gate_simple_long_range", "split"): "factorises the two-site *gate operator* into an MPO-like string (its own stage: the state's bond cap / cutoff apply to the compressions along the path, which receive them)",
     ("compute_oblique_projectors", "safe_inverse"): "safe_inverse's `cutoff` regularises an inverse; it is not the truncation cutoff (name clash)",
 }
 
@@ -193,6 +194,17 @@ def _candidates(ctx, f, c):
         r = p.resolve_expr(f.module, c.func) if dotted(c.func) else None
         if isinstance(r, FuncInfo):
             return [r]
+        if isinstance(c.func.value, ast.Name):
+            # a module imported inside the function:  from quimb.tensor.belief_propagation import l2bp ; l2bp.compress_l2bp(...)
+            for imp in ast.walk(f.node):
+                if isinstance(imp, ast.ImportFrom) and imp.module and not imp.level:
+                    for a in imp.names:
+                        if (a.asname or a.name) == c.func.value.id:
+                            mod = p.modules.get(imp.module + "." + a.name)
+                            if mod is not None:
+                                g = p.lookup(mod, c.func.attr)
+                                if isinstance(g, FuncInfo):
+                                    return [g]
         if isinstance(c.func.value, ast.Call) and isinstance(c.func.value.func, ast.Name) and c.func.value.func.id == "super" and f.cls is not None:
             t = f.cls.find_after(f.cls, c.func.attr)
             return [t] if t is not None else []
@@ -206,6 +218,31 @@ def _candidates(ctx, f, c):
                 return [m] + subs
         return cands
     return []
+
+
+def _accepts(ctx, rm, opt, depth=0):
+    """True when `rm` accepts the option by name, or is a wrapper that hands its catch-all keywords, untouched, to exactly one
+    callee that accepts it (Tensor.split -> tensor_split; TensorNetwork.split -> <linear operator>.split -> tensor_split)."""
+    if opt in rm.params:
+        return True
+    node = rm.node
+    kw = getattr(getattr(node, "args", None), "kwarg", None)
+    if kw is None or depth > 2 or isinstance(node, ast.Lambda):
+        return False
+    K = kw.arg
+    uses = [x for x in ast.walk(node) if isinstance(x, ast.Name) and x.id == K]
+    fwd = [c for c in ast.walk(node) if isinstance(c, ast.Call) and any(k.arg is None and isinstance(k.value, ast.Name) and k.value.id == K for k in c.keywords)]
+    if len(fwd) != 1 or len(uses) != 1:
+        return False  # read, popped or completed on the way: not a plain trampoline
+    c = fwd[0]
+    if isinstance(c.func, ast.Name):
+        g = ctx.prog.lookup(rm.module, c.func.id)
+        return isinstance(g, FuncInfo) and _accepts(ctx, g, opt, depth + 1)
+    if isinstance(c.func, ast.Attribute) and c.func.attr == rm.name:
+        # the same-named method of another object of the family
+        cands = [m for m in ctx.eff.name_index().get(rm.name, []) if m is not rm and ctx.eff.in_tensor_world(m.cls)]
+        return bool(cands) and all(_accepts(ctx, m, opt, depth + 1) for m in cands)
+    return False
 
 
 def rule_option_delivery(ctx, opts=("max_bond", "cutoff"), modules=None, rule="cap-delivery", floor=20, description=None, exempt_extra=None, want_names=None):
@@ -248,7 +285,7 @@ def rule_option_delivery(ctx, opts=("max_bond", "cutoff"), modules=None, rule="c
                     # self.<method>: the method of the caller's own class accepts the option; overrides that do not are
                     # incompatible with this call anyway and cannot silently drop it
                     real = [x for x in real if opt in x[1].params]
-                if not real or not all(opt in rm.params for _, rm in real):
+                if not real or not all(_accepts(ctx, rm, opt) for _, rm in real):
                     continue
                 total += 1
                 callee = src_of(c.func)
